@@ -203,6 +203,18 @@ CHECKS = {
    note="bounded: one fixed type family; <= 0/1 items exhaustively, <= 4 random; PathMap::search's fuzzy passes are exercised only "
         "through renamed fields and decoy keys (one known finding); " + TRUST,
    technique="TLA+ model (PathMap.tla) checked by TLC + TLC-generated documents replayed into the real entry points + TLC trace validation of reported issues"),
+ "C19": dict(
+   category="model_checking",
+   text="Robotics.tla is a token-level recursive-descent acceptor for the robotics float language with the nesting counter and "
+        "unit flags as state; its output is a postfix evaluation plan plus the verdict (accepted / rejected, mixed units under "
+        "!degrees). TLC checks its laws on every short token sequence and emits each with verdict and plan; the harness renders "
+        "the tokens, evaluates them with the real crate (f32 / f64, option on / off, tags) and folds the plan in IEEE f64; the "
+        "TLA+ trace validator re-derives verdict and plan from the tokens and compares acceptance, plan and value bit for bit, "
+        "and checks ordinary literals and totality.",
+   design_ref="DESIGN.md section 4 C19",
+   note="bounded: <= 3/4 tokens exhaustively, trees to depth 4 randomly; floating-point folding is done by the harness (TLA+ has no "
+        "IEEE arithmetic); !timestamp-tagged sexagesimals are not generated; " + TRUST,
+   technique="TLA+ model (Robotics.tla acceptor -> evaluation plan) checked by TLC + TLC-generated token sequences replayed into the real evaluator + TLC trace validation of results"),
  "C15": dict(
    category="model_checking",
    text="AnchorStore.tla's call-history part models the thread-local state (context stack, store, in-progress set) under nested "
